@@ -42,7 +42,7 @@ def range_correspondence(ctx, rows):
                                        '(Raise AssertErr)' if est == 'AssertionError' else
                                        '(Raise InternalErr)' if isinstance(est, str) else '(Ok %s)' % oq(est))
                           for parts, est in rows[s:s + step])
-        texts.append(HEADER + 'Definition cases := [\n%s\n].\nEval vm_compute in mismatches okrange 0 cases.\n' % body)
+        texts.append(HEADER + 'Definition cases : list (list (option (Q * Q)) * res (option (Q * Q))) := [\n%s\n].\nEval vm_compute in mismatches okrange 0 cases.\n' % body)
     bad = []
     for k, (ok, out) in enumerate(vlib.run_cases_sharded('c06r_' + ctx.tier, texts)):
         val = vlib.coq_eval_value(out) if ok else None
